@@ -22,7 +22,6 @@ import (
 
 	"github.com/LindsayBradford/crem/internal/pkg/annealing/explorer/kirkpatrick"
 	"github.com/LindsayBradford/crem/internal/pkg/model"
-	"github.com/LindsayBradford/crem/internal/pkg/model/models/catchment"
 	"github.com/LindsayBradford/crem/internal/pkg/model/variable"
 	"github.com/LindsayBradford/crem/internal/pkg/observer"
 	"github.com/LindsayBradford/crem/internal/pkg/parameters"
@@ -138,6 +137,11 @@ type kirkRig struct {
 	src      *scriptedSource
 	rec      *kirkRecorder
 	approx   bool // objective compared approximately (catchment mode)
+	// tracked (catchment mode over generated data): the objective the driver's scripted model holds -- the starting value
+	// plus every accepted reported change, added in binary64 WITHOUT the catchment model's re-rounding to its grid.  The
+	// objective token of a `tryc` line is this accumulation (a relative tolerance cannot absorb the difference once the
+	// objective cancels to near zero); the real objective is judged by the direct clause objective-update.
+	tracked *float64
 }
 
 func (k *kirkRig) objective() float64 {
@@ -309,6 +313,12 @@ func (k *kirkRig) try(c *Ctx, delta float64, valid bool, v int64, tag string) {
 	objTok := bitsOrNaN(after)
 	if k.approx {
 		objTok = approxTok(after)
+	}
+	if k.tracked != nil {
+		if calls == "A" {
+			*k.tracked += dRep
+		}
+		objTok = approxTok(*k.tracked)
 	}
 	c.Op(op, fmt.Sprintf("%s %s %d %s %s %s %s %s %s", kind, calls, k.src.calls, bitsOrNaN(dRep), pTok,
 		approxTok(ke.AcceptanceProbability), objTok, strings.Join(evs, ","), bitsOrNaN(u)))
@@ -516,48 +526,11 @@ func kirkScriptedSequence(c *Ctx, r *Rng, steps int) {
 
 const catchmentCsv = "internal/pkg/model/models/catchment/testdata/ValidModel.csv"
 
-// kirkCatchmentSequence: the same explorer over the real catchment model.
+// kirkCatchmentSequence: the same explorer over the real catchment model (suite_kirk_catchment.go): shipped and
+// generated (incl. adverse) datasets, no limit or a limit on any of the six variables (property C03).
 func kirkCatchmentSequence(c *Ctx, r *Rng, steps int) {
-	objectives := []string{"SedimentProduction", "ImplementationCost", "ParticulateNitrogen", "OpportunityCost", "TotalNitrogen", "DissolvedNitrogen"}
-	objective := objectives[r.Intn(len(objectives))]
-	dir := []string{"min", "max"}[r.Intn(2)]
-	a := []float64{0.9, 0.99, 1}[r.Intn(3)]
-	params := parameters.Map{"DataSourcePath": catchmentCsv}
-	limited := r.Chance(0.35)
-	if limited {
-		// a limit makes the model report invalid changes
-		params["MaximumImplementationCost"] = float64(50000 + r.Intn(400000))
-	}
-	var k *kirkRig
-	var T float64
-	pan := protect(func() {
-		m := catchment.NewModel().WithParameters(params)
-		var p2 string
-		// temperature on the scale of the objective's changes is chosen after a look at the model
-		k, p2 = newKirkRig(dir, 1, a, m, objective)
-		if p2 != "" {
-			panic(p2)
-		}
-	})
-	if pan != "" || k == nil || k.explorer == nil {
-		c.Stat("catchment: initialisation panicked (skipped): " + clip(pan, 60))
-		return
-	}
-	k.approx = true
-	T = []float64{0.01, 1, 100, 10000, 1e6}[r.Intn(5)]
-	k.explorer.Temperature = T
-	obj0 := k.objective()
-	c.Op(fmt.Sprintf("reset %s %s %s %s", dir, floatBits(T), floatBits(a), floatBits(obj0)), "ok")
-	c.Stat(fmt.Sprintf("catchment sequence objective=%s dir=%s limited=%v", objective, dir, limited))
-	for i := 0; i < steps; i++ {
-		if r.Chance(0.3) {
-			k.cool(c)
-			continue
-		}
-		// the draw cannot be aimed at p here (the model picks the change); uniform + boundaries
-		k.try(c, 0, true, kirkDraw(r, -1), "catchment")
-	}
-	protect(func() { k.explorer.TearDown() })
+	ds, limVar := kirkCatchmentPlan(c, r)
+	kirkCatchmentRun(c, ds, r.U64(), steps, limVar)
 }
 
 // kirkDumbSequence: the real explorer over crem's own DumbModel (Model.Type = "DumbModel" in a configuration): the model
@@ -633,6 +606,10 @@ func kirkReplay(c *Ctx, lines []string) {
 			k.try(c, d, w[1] == "1", v, "replay")
 		case w[0] == "cool" && k != nil:
 			k.cool(c)
+		case w[0] == "kcatch" && len(w) >= 5:
+			// a whole sequence over the real catchment model, re-run from its recorded seed and dataset
+			kirkCatchmentReplay(c, w)
+			k = nil
 		}
 	}
 }
@@ -677,8 +654,8 @@ func suiteKirk(c *Ctx) {
 	for s := 0; s < c.N(2, 20); s++ {
 		kirkScriptedSequence(c, r, c.N(3000, 10000))
 	}
-	for s := 0; s < c.N(12, 60); s++ {
-		kirkCatchmentSequence(c, r, c.N(300, 600))
+	for s := 0; s < c.N(63, 315); s++ { // 7 limit choices x 3 kinds of dataset x 3 (15) rounds
+		kirkCatchmentSequence(c, r, c.N(160, 400))
 	}
 	for s := 0; s < c.N(8, 40); s++ {
 		kirkDumbSequence(c, r, c.N(200, 600))
